@@ -292,6 +292,15 @@ func intBound(v ssa.Value, pred, blk *ssa.BasicBlock, upper bool, depth int) int
 			if e == ssa.Value(x) {
 				continue
 			}
+			// a counter: phi(c, phi + k). Growing (k >= 0) keeps the lower bound, shrinking keeps the upper bound.
+			if bo, ok := e.(*ssa.BinOp); ok && (bo.Op == token.ADD || bo.Op == token.SUB) && bo.X == ssa.Value(x) {
+				if k, ok := constInt(bo.Y); ok {
+					grows := (bo.Op == token.ADD) == (k >= 0)
+					if grows && !upper || !grows && upper {
+						continue
+					}
+				}
+			}
 			eb := intBound(e, x.Block().Preds[i], x.Block(), upper, depth+1)
 			if upper && eb > own || !upper && eb < own {
 				own = eb
